@@ -91,7 +91,11 @@ pub fn gen_for_generator(rng: &mut Rng, idx: usize, risky_pct: usize, depth: usi
                 if !idl.members.iter().any(|m| m.name == n) {
                     let kind = *rng.pick(&[MKind::Method, MKind::Error]);
                     idl.members.push(Member { kind, name: n.into(), comments: vec![], a: Ty::Struct(vec![("a".into(), Ty::Int)]), b: if kind == MKind::Method { Some(Ty::Struct(vec![("b".into(), Ty::Str)])) } else { None } });
-                    risky = Some((format!("{}-name-like-rust-keyword-or-prelude", if kind == MKind::Method { "method" } else { "error" }), n.to_string()));
+                    // method names are handled since fix d0373ca (raw identifiers); an error
+                    // named Self still yields the variant `ErrorKind::Self`
+                    if kind == MKind::Error && n == "Self" {
+                        risky = Some(("error-name-like-rust-keyword-or-prelude".to_string(), n.to_string()));
+                    }
                 }
             }
             2 => {
@@ -287,7 +291,7 @@ pub fn c09_main(ctx: &Ctx, repo_bin_dir: Option<String>) -> i32 {
     let mut all_ok: Vec<GenIdl> = Vec::new();
     let mut crate_no = 0;
     for i in 0..n {
-        let g = gen_for_generator(&mut rng, i, 35, 1 + i % 3);
+        let g = gen_for_generator(&mut rng, i, 35, 1 + i % 4);
         let nontrivial = g.idl.members.iter().any(|m| has_anon(&m.a) || m.b.as_ref().map(has_anon).unwrap_or(false)) || g.risky.is_some() || g.text.contains("type:") || g.text.contains("fn");
         ctx.case(if nontrivial { Some(hash_of(&("lib", &g.text))) } else { None });
         let wit = |m: String| json!({"engine": "c09", "front_end": "generate()", "definition": g.text, "risky_feature": g.risky, "message": m});
